@@ -22,7 +22,19 @@ def scripts():
     oneline = Prog(Asg("a", N(1)), Asg("b", N(2)))
     handled = Prog(Asg("a", N(1)), E(Bin("except__", Code(Asg("b", Bin("select", Arr(N(1)), N(7))), Asg("b2", N(1))), Code(Asg("h", N(2))))), Asg("c", N(3)))
     return [("good1", good1, [1, 2], False), ("nested", nested, [1, 2, 3], False), ("bad1", bad1, [0, 1], True),
-            ("loop", loop, [0, 2, 3], False), ("oneline", oneline, [], False), ("handled", handled, [0, 1, 2, 3], False)] + unwinding_scripts()
+            ("loop", loop, [0, 2, 3], False), ("oneline", oneline, [], False), ("handled", handled, [0, 1, 2, 3], False)] + unwinding_scripts() + handled_scripts()
+
+
+def handled_scripts():
+    """scripts in which an instruction raises a runtime error that a recovering scope (except__) takes over: directly in the guarded block,
+    two calls below it, and as the very first thing of the block; the handler has two statements and stands on lines of its own"""
+    dl = lambda n: E(Un("diag_log", N(n)))
+    call = lambda *ss: E(Un("call", Code(*ss)))
+    bad = lambda n: Asg(n, Bin("select", Arr(N(1)), N(7)))
+    h1 = Prog(dl(1), E(Bin("except__", Code(dl(2), bad("b"), dl(3)), Code(dl(4), dl(5)))), dl(6))
+    h2 = Prog(dl(1), E(Bin("except__", Code(dl(2), call(dl(3), call(bad("b"), dl(4)), dl(5)), dl(6)), Code(dl(7), dl(8)))), dl(9))
+    h3 = Prog(E(Bin("except__", Code(bad("b")), Code(dl(1), dl(2)))), dl(3))
+    return [("handled-direct", h1, [0, 3, 4], False), ("handled-two-calls-down", h2, [0, 2, 6, 7], False), ("handled-first", h3, [0, 1], False)]
 
 
 def unwinding_scripts():
@@ -207,6 +219,16 @@ def main(replay=None):
             unwind_dist["leave_scope after k steps into %s" % nm] = nsteps + 1
             for k in range(nsteps + 1):
                 paths.append(("L", nm, "p" * k + "vpvs"))
+        # stepped up to (and over) an instruction whose runtime error a recovering scope takes over, then a line step and leave_scope
+        hnd = [nm for nm, _, _, _ in handled_scripts() if nm in usable]
+        rc, lens, _ = V.run_lines([drv, "ctl-seq"], ["repaired\tL\t%s\t%s\t%s" % (texts[nm][0], diag[nm], "p" * 150) for nm in hnd])
+        for nm, ln in zip(hnd, lens):
+            nsteps = next((i for i, o in enumerate(ln.split(";")[1:]) if o.startswith("-1:")), 150)
+            unwind_dist["single steps, line step, leave_scope after k steps into %s" % nm] = nsteps + 1
+            paths.append(("L", nm, "p" * (nsteps + 1)))
+            for k in range(nsteps + 1):
+                paths.append(("L", nm, "p" * k + "lv"))
+                paths.append(("L", nm, "p" * k + "vl"))
         for nm in flat:
             trees += [("L", nm, 7), ("L", nm, 3 + (1 if thorough else 0)), ("F", nm, 2)]
             alpha_of[("L", nm, 7)] = "lp"
@@ -371,6 +393,199 @@ def main(replay=None):
                 T = flat[nm]
                 if pa is not None and pb is not None and pa < pb < len(T) and T[pa][1] != T[pb][1] and T[pa][0] == T[pb][0]:
                     crossings["line steps that ended at a file boundary between equal line numbers"] += 1
+
+    # ------------------------------------------------------------- single steps with visible instructions (implementation only)
+    # "An assembly step executes exactly one instruction", "a line step stops at the first instruction of a different line", "leave_scope
+    # stops right after the scope was left" - also when the instruction that runs raises a runtime error which a recovering scope
+    # (except__) takes over.  The scripts consist of nular operators verif_m0__ .. verif_m9__ registered by the harness (each appends its
+    # digit to a trace: ONE instruction with a visible effect) around failing instructions; after every action the harness reports
+    # the trace and the instruction that runs next.  Judged by the clauses alone:
+    #   p: the trace grows by exactly the digit of the instruction that was next if that was a marker, and not at all otherwise
+    #   l: markers executed by a line step stand on the line it started on; it ends in front of another line; it ends where single
+    #      steps first reach another line
+    #   v: ends where single steps first have fewer scopes than at the request; every marker it executes was, in the single-step run,
+    #      about to run at that depth or deeper
+    STEP_SCRIPTS = [
+        ("caught-direct", '{ verif_m0__; 1 + "a"; verif_m1__ } except__ { verif_m2__; verif_m3__ }; verif_m4__'),
+        ("caught-first-handler-below", 'verif_m0__; { 1 + "a" } except__ {\nverif_m1__; verif_m2__\n}; verif_m3__'),
+        ("caught-two-calls-down", 'verif_m0__; { verif_m1__; call { verif_m2__; call { [1] select 7; verif_m3__ }; verif_m4__ }; verif_m5__ } except__ { verif_m6__; verif_m7__ }; verif_m8__'),
+        ("caught-in-handler-of-inner", '{ { 1 + "a" } except__ { verif_m0__; [] select 3; verif_m1__ } } except__ { verif_m2__; verif_m3__ }; verif_m4__'),
+        ("caught-in-loop-body", '{ { verif_m0__; _x + "a"; verif_m1__ } forEach [1, 2] } except__ { verif_m2__; verif_m3__ }; verif_m4__'),
+        ("caught-in-then-and-again", 'if (true) then { { verif_m0__; 1 + "a" } except__ { verif_m1__ } }; { 2 + "b" } except__ { verif_m2__; verif_m3__ }; verif_m4__'),
+        ("caught-in-catch-block", '{ try { verif_m0__; throw 1; verif_m1__ } catch { verif_m2__; 1 + "a"; verif_m3__ } } except__ { verif_m4__; verif_m5__ }; verif_m6__'),
+        ("caught-undefined-operand", '{ verif_m0__; private _u = nil; verif_m1__; [1, 2] select "x"; verif_m2__ } except__ { verif_m3__; verif_m4__ }; verif_m5__'),
+        ("control-no-error", 'verif_m0__; call { verif_m1__; call { verif_m2__ }; verif_m3__ }; verif_m4__; if (true) then { verif_m5__ }; verif_m6__'),
+        ("control-uncaught", 'verif_m0__; call { verif_m1__; 1 + "a"; verif_m2__ }; verif_m3__'),
+    ]
+    def layouts(text, r_):
+        """the text as it is, with every statement on its own line, and with a random choice of line breaks"""
+        out = [text, text.replace("; ", ";\n").replace("{ ", "{\n")]
+        t = "".join((";\n" if r_.random() < 0.5 else "; ") if x == "; " else x for x in re.split("(; )", text))
+        t = "".join(("{\n" if r_.random() < 0.4 else "{ ") if x == "{ " else x for x in re.split("({ )", t))
+        out.append(t)
+        return list(dict.fromkeys(out))
+    step_found = {}
+    def sreport(kind, what, rep):
+        step_found.setdefault(kind, []).append((what, rep))
+    step_cases = []
+    if replay:
+        r = json.load(open(replay))["replay"]
+        if r.get("kind") == "steps":
+            step_cases = [(r["script_name"], r["script"])]
+    else:
+        cdir = os.path.join(V.VERIF, "corpus", PID)
+        if os.path.isdir(cdir):
+            for fn in sorted(os.listdir(cdir)):
+                r = json.load(open(os.path.join(cdir, fn)))
+                if r.get("kind") == "steps":
+                    step_cases.append((r["script_name"], r["script"]))
+        for nm_, t_ in STEP_SCRIPTS:
+            for i_, lt in enumerate(layouts(t_, run.rng)):
+                step_cases.append(("%s/%d" % (nm_, i_), lt))
+    def sobs(o):
+        f = o.split(":")
+        if len(f) != 8 or not f[0].lstrip("-").isdigit():
+            return None
+        return {"res": int(f[0]), "state": int(f[1]), "marks": "" if f[2] == "-" else f[2], "nframes": int(f[3]),
+                "next": None if f[4] == "-" else V.unhx(f[4]).decode("latin-1"), "line": int(f[5]), "off": int(f[6]), "pos": f[7]}
+    def same_place(a, b):
+        return a is not None and b is not None and (a["marks"], a["nframes"], a["next"], a["off"], a["pos"]) == (b["marks"], b["nframes"], b["next"], b["off"], b["pos"])
+    def scope_region(text, off):
+        """the innermost { } block of the text that holds the offset, and the handler block behind it (except__ / catch), which runs in the same
+        scope when the block fails; the whole text if no block holds the offset.  -> ((from, to), (from, to))"""
+        stack, blocks = [], []
+        for i, ch in enumerate(text):
+            if ch == "{":
+                stack.append(i)
+            elif ch == "}" and stack:
+                blocks.append((stack.pop(), i))
+        inner = [(x, y) for x, y in blocks if x < off < y]
+        if not inner:
+            return (0, len(text)), (0, 0)
+        x, y = max(inner, key=lambda b_: b_[0])
+        m_ = re.match(r"\s*(except__|catch)\s*\{", text[y + 1:])
+        if m_:
+            hx_ = y + 1 + m_.end() - 1
+            hy_ = next((b_[1] for b_ in blocks if b_[0] == hx_), hx_)
+            return (x, y), (hx_, hy_)
+        return (x, y), (0, 0)
+    def marker_of(ins):
+        m_ = re.match(r"^CALLNULAR verif_m(\d)__$", ins or "")
+        return m_.group(1) if m_ else None
+    step_stats = {"scripts x layouts": len(step_cases), "assembly steps judged": 0, "of them over an instruction whose error was taken over": 0,
+                  "line steps judged": 0, "leave_scope judged": 0}
+    rc, ptr, _ = V.run_lines_parallel([hctl, "steps"], ["%s\t%s" % (V.hx(t_), "p" * 140) for _, t_ in step_cases], timeout=3000)
+    more, owner = [], []
+    ptraces = {}
+    for (nm_, t_), ln in zip(step_cases, ptr):
+        tr = [sobs(o) for o in ln.split(";")]
+        rep0 = {"kind": "steps", "script_name": nm_, "script": t_}
+        if not tr or tr[0] is None:
+            report("steps-machinery", "the harness could not step the script (machinery)", dict(rep0, impl=ln[:300], broken="h_ctl steps"), found=False)
+            continue
+        # the run as far as it is a run: up to the first step that does not return ok
+        n = 0
+        while n + 1 < len(tr) and tr[n + 1] is not None and tr[n + 1]["res"] == 0:
+            n += 1
+        ptraces[nm_] = (t_, tr, n)
+        line_of_marker = {d: t_[:t_.index("verif_m%s__" % d)].count("\n") for d in "0123456789" if ("verif_m%s__" % d) in t_}
+        base_line = tr[0]["line"] - t_[:tr[0]["off"]].count("\n") if tr[0]["next"] else 0
+        for j in range(min(n + 1, len(tr) - 1)):
+            a, b = tr[j], tr[j + 1]
+            if b is None:
+                sreport("steps-crash", "assembly_step no. %d did not return" % (j + 1), dict(rep0, actions="p" * (j + 1), impl=ln.split(";")[j + 1][:200]))
+                break
+            evaluations += 1
+            step_stats["assembly steps judged"] += 1
+            delta = b["marks"][len(a["marks"]):] if b["marks"].startswith(a["marks"]) else None
+            want = None if a["next"] is None else (marker_of(a["next"]) or "")
+            if delta is None or (want is not None and delta != want) or (want is None and len(delta) > 1):
+                nontrivial.add(("steps", nm_, j))
+                sreport("steps-p", "assembly_step no. %d does not execute exactly one instruction: the instruction to run was %s, the step executed the marker(s) %r%s"
+                       % (j + 1, a["next"] or "<the end of a scope>", delta, " - the instruction raised a runtime error which a recovering scope took over, and the step went on into the handler"
+                          if (b["nframes"] <= a["nframes"] and want == "" and delta) else ""),
+                       dict(rep0, actions="p" * (j + 1), before=ln.split(";")[j], after=ln.split(";")[j + 1], instruction=a["next"], markers_executed=delta))
+                break
+        # which single steps ran an instruction whose error was taken over: the step produced an error record?  Not observable here;
+        # counted by construction: steps after which fewer or equally many scopes exist and the position list was rewound
+        for j in range(n):
+            if tr[j]["next"] and re.match(r"^CALLBINARY (\+|select)$", tr[j]["next"]) and tr[j + 1]["res"] == 0 and tr[j + 1]["nframes"] <= tr[j]["nframes"] \
+                    and tr[j + 1]["pos"].split(",")[0] == "0":
+                step_stats["of them over an instruction whose error was taken over"] += 1
+        # depth at which every marker is about to run in the single-step run
+        depth_of = {}
+        for j in range(n + 1):
+            d = marker_of(tr[j]["next"])
+            if d is not None:
+                depth_of[d] = min(depth_of.get(d, 99), tr[j]["nframes"])
+        for k in range(n + 1):
+            if tr[k]["next"] is None or tr[k]["nframes"] == 0:
+                continue
+            for act in "lv":
+                more.append("%s\t%s" % (V.hx(t_), "p" * k + act))
+                owner.append((nm_, k, act, line_of_marker, base_line, depth_of))
+    rc, mout, _ = V.run_lines_parallel([hctl, "steps"], more, timeout=3000)
+    for (nm_, k, act, line_of_marker, base_line, depth_of), ln in zip(owner, mout):
+        t_, tr, n = ptraces[nm_]
+        rep0 = {"kind": "steps", "script_name": nm_, "script": t_, "actions": "p" * k + act}
+        o = ln.split(";")
+        a = sobs(o[k]) if len(o) > k else None
+        b = sobs(o[k + 1]) if len(o) > k + 1 else None
+        if a is None or not same_place(a, tr[k]):
+            report("steps-machinery", "the same steps gave another state in a second process (machinery)", dict(rep0, impl=ln[:300], broken="h_ctl steps"), found=False)
+            continue
+        if b is None:
+            sreport("steps-crash", "%s after %d assembly steps did not return" % ("line_step" if act == "l" else "leave_scope", k), dict(rep0, impl=ln[-200:]))
+            continue
+        evaluations += 1
+        nontrivial.add(("steps", nm_, k, act))
+        delta = b["marks"][len(a["marks"]):] if b["marks"].startswith(a["marks"]) else "?"
+        if act == "l":
+            step_stats["line steps judged"] += 1
+            A = a["line"]
+            foreign = [d for d in delta if d == "?" or line_of_marker.get(d, -1) + base_line != A]
+            # where single steps first stand in front of another line (or the run ends / fails)
+            j = next((j for j in range(k + 1, n + 1) if tr[j]["next"] is not None and tr[j]["line"] != A), None)
+            if foreign:
+                sreport("steps-l", "line_step issued after %d assembly steps, on line %d, executed instructions of another line: the marker(s) %s stand on line(s) %s"
+                       % (k, A, ",".join(foreign), ",".join(str(line_of_marker.get(d, -1) + base_line) for d in foreign)),
+                       dict(rep0, before=o[k], after=o[k + 1], start_line=A, markers_executed=delta))
+            elif b["res"] == 0 and b["next"] is not None and b["line"] == A:
+                sreport("steps-l", "line_step issued after %d assembly steps ends in front of an instruction of the line it started on (%d)" % (k, A),
+                       dict(rep0, before=o[k], after=o[k + 1], start_line=A))
+            elif j is not None and b["res"] == 0 and not same_place(b, tr[j]):
+                sreport("steps-l", "line_step issued after %d assembly steps does not end where single steps first reach another line (after step %d)" % (k, j),
+                       dict(rep0, before=o[k], after=o[k + 1], single_steps=ptr[[c[0] for c in step_cases].index(nm_)].split(";")[j]))
+        else:
+            step_stats["leave_scope judged"] += 1
+            d0 = a["nframes"]
+            lo, hi = scope_region(t_, a["off"])
+            pos_ok = all(tr[j]["off"] == t_.index(tr[j]["next"].split(" ")[1]) for j in range(n + 1) if marker_of(tr[j]["next"]) is not None)
+            outside = [d for d in delta if d == "?" or not any(x <= t_.index("verif_m%s__" % d) < y for x, y in (lo, hi))] if pos_ok else []
+            j = next((j for j in range(k + 1, n + 1) if tr[j]["nframes"] < d0), None)
+            if outside:
+                sreport("steps-v", "leave_scope issued after %d assembly steps, %d scope(s) deep, in front of %s, does not stop right after that scope was left: it executed the marker(s) %s, "
+                       "which stand outside the block %r (and the handler block that takes its place on a failure)"
+                       % (k, d0, a["next"], ",".join(outside), t_[lo[0]:lo[1] + 1][:60]), dict(rep0, before=o[k], after=o[k + 1], markers_executed=delta))
+            elif j is not None and b["res"] == 0 and not same_place(b, tr[j]):
+                sreport("steps-v", "leave_scope issued after %d assembly steps does not end where single steps first have left the scope (after step %d)" % (k, j),
+                       dict(rep0, before=o[k], after=o[k + 1], single_steps=ptr[[c[0] for c in step_cases].index(nm_)].split(";")[j]))
+    # one finding per kind of action first (p, l, v), then a second one each from another script
+    for rnd in range(2):
+        for kind in ("steps-crash", "steps-p", "steps-l", "steps-v"):
+            fs = step_found.get(kind, [])
+            seen_scripts = set()
+            pick = []
+            for what, rep in fs:
+                fam = rep["script_name"].split("/")[0]
+                if fam not in seen_scripts:
+                    seen_scripts.add(fam); pick.append((what, rep))
+            if rnd < len(pick):
+                what, rep = pick[rnd]
+                run.violation(what + (" (%d case(s) of this kind in %d script(s))" % (len(fs), len(pick)) if rnd == 0 else ""), rep)
+    dist["single steps with visible instructions (scripts x layouts)"] = len(step_cases)
+    run.cov["visible_instruction_steps"] = step_stats
+
 
     # ------------------------------------------------------------- concurrent: executor parked inside an instruction
     marks = 8
